@@ -52,7 +52,8 @@ MUL = {"checked_mul", "mul", "pow", "checked_pow", "saturating_mul", "saturating
 DIVF = {"checked_div", "div", "multiply_ratio", "checked_multiply_ratio", "checked_mul_floor",
         "checked_div_floor", "mul_floor", "div_floor", "from_ratio", "checked_from_ratio", "to_uint_floor",
         "from_atomics", "inv", "floor", "checked_div_euclid", "div_euclid", "div_assign", "percent",
-        "permille", "bps", "checked_rem", "rem", "rem_assign", "sqrt", "isqrt", "integer_sqrt"}
+        "permille", "bps", "sqrt", "isqrt", "integer_sqrt"}
+REM = {"checked_rem", "rem", "rem_assign", "checked_rem_euclid", "rem_euclid"}
 DIVC = {"to_uint_ceil", "checked_mul_ceil", "mul_ceil", "checked_div_ceil", "div_ceil", "ceil",
         "next_multiple_of", "checked_next_multiple_of"}
 WRAP = {"wrapping_add", "wrapping_sub", "wrapping_mul", "wrapping_div", "wrapping_pow", "overflowing_add",
@@ -291,6 +292,8 @@ def arith(I, st, tys, method, args):
         ops = ["sub", "sat"]
     elif method in SUB:
         ops = ["sub"]
+    elif method in REM:
+        ops = ["rem"]
     elif method in DIVC:
         ops = ["div_ceil"]
     elif method in DIVF:
@@ -419,6 +422,9 @@ def iterators(I, st, frame, t, name, self_ty, tys, trait, method, args, ev):
     is_iter_ctx = ("Iterator" in name or "iter" in name.lower() or "IntoIter" in name)
     if method in ("iter", "iter_mut") and len(args) == 1:
         return mk_iter(elem_of(I, st, a0))
+    if method in ("splitn", "split", "rsplit", "rsplitn", "split_terminator", "lines", "split_whitespace", "char_indices") \
+            and "str" in name:
+        return mk_iter(I.derive(st, [D(a0)], "split"))
     if method == "into_iter" and len(args) == 1:
         if "HashMap" in name or "BTreeMap" in name:
             m = D(a0)
